@@ -1457,6 +1457,53 @@ fn gen_case(rng: &mut Rng, n: usize, tier: &str, scratch: &std::path::Path, out:
                     ops.push(Op::Select(rng.below(2) as usize));
                     ops.push(Op::Get(1));
                 }
+                _ if !selecting && rng.chance(1, 6) => {
+                    // two or three one-syllable choices made from left to right, then an edit that destroys the FIRST of
+                    // them (Delete on it / Backspace behind it): the later choices move along with their symbols and
+                    // stay displayed (seeded changes C04-D, C04-F)
+                    let with_word: Vec<usize> = (0..world.syls.len()).filter(|i| !world.no_word[*i]).collect();
+                    if with_word.len() >= 2 {
+                        let mut o = opts_vec(&ed.editor_options());
+                        o[3] = 0;
+                        o[4] = 0;
+                        o[8] = 0;
+                        o[6] = 20;
+                        ops.push(Op::Opts(o));
+                        let n = 4 + rng.below(3) as usize;
+                        for _ in 0..n {
+                            let i = *rng.pick(&with_word);
+                            for k in &world.keys[i] {
+                                ops.push(key_op(*k, none));
+                            }
+                        }
+                        let picks = 2 + rng.below(2) as usize;
+                        for c in 0..picks {
+                            // the list opened with the cursor at the END of symbol 2c (the rule "cursor at the end selects
+                            // the previous symbol" does not apply in the middle: position 2c + 1 selects symbol 2c + 1)
+                            ops.push(key_op(Home, none));
+                            for _ in 0..(2 * c).min(n - 1) {
+                                ops.push(key_op(Right, none));
+                            }
+                            ops.push(key_op(Down, none));
+                            ops.push(Op::Select(1 + rng.below(2) as usize));
+                            ops.push(key_op(Esc, none));
+                        }
+                        ops.push(Op::Get(1));
+                        ops.push(key_op(Home, none));
+                        if rng.chance(1, 2) {
+                            ops.push(key_op(Del, none));
+                        } else {
+                            ops.push(key_op(Right, none));
+                            ops.push(key_op(Backspace, none));
+                        }
+                        ops.push(Op::Get(1));
+                        ops.push(key_op(End, none));
+                        for k in &world.keys[with_word[0]] {
+                            ops.push(key_op(*k, none));
+                        }
+                        ops.push(Op::Get(1));
+                    }
+                }
                 _ if !selecting && world.no_word.iter().any(|x| *x) && rng.chance(1, 5) => {
                     // auto-commit pushes out a syllable that has no word at all: it is shown (and committed) by its
                     // spelling, several characters for ONE symbol - exactly one symbol leaves the buffer for it and the
